@@ -1,5 +1,5 @@
 """property id -> rules, explanation of what is / is not decided"""
-from rules import r_coord, r_keyid, r_opcode, r_doaction, r_cancel, r_idle, r_loop, r_traverse, r_repeat, r_chv2, r_wait, r_macro, r_seq, r_override, r_reload, r_pipeline, r_dynmacro, r_vkey, r_layers, r_panic, r_prodcons
+from rules import r_coord, r_keyid, r_opcode, r_doaction, r_cancel, r_idle, r_loop, r_traverse, r_repeat, r_chv2, r_wait, r_macro, r_seq, r_override, r_reload, r_pipeline, r_dynmacro, r_vkey, r_layers, r_panic, r_prodcons, r_span
 
 PROPS = {
     "C01": {
@@ -25,8 +25,11 @@ PROPS = {
                        "internals",
     },
     "C03": {
-        "rules": [r_panic.run_parse],
-        "explanation": "Decides: (R-PANIC/parse) every panic-capable site in the functions reachable from cfg::new_from_str / "
+        "rules": [r_panic.run_parse, r_span.run],
+        "explanation": "Decides: (R-SPAN) the lexer only compares bytes with ASCII constants, Span/Position are built or modified "
+                       "only in the s-expression module, the single post-hoc span adjustment is guarded by a test selecting exactly "
+                       "one lexer message, and text is indexed by a span only through Index<Span> on that span's own file_content(); "
+                       "(R-PANIC/parse) every panic-capable site in the functions reachable from cfg::new_from_str / "
                        "new_from_file, the s-expression Debug impls and the ParseError -> miette conversion is discharged by the "
                        "guard data-flow (argument-count checks before indexing, chunks_exact, range loops, validator summaries, "
                        "caller preconditions, closure inheritance) or matched by a reviewed invariant; anything else is reported "
